@@ -13,9 +13,11 @@ import threading
 
 import numpy as np
 
+SHARED = None      # multiprocessing.Value inherited through fork: cross-process evaluation counter
+
 
 class Likelihood:
-    def __init__(self, target, mode="vec", shift=0.0, delay=None, shared_counter=None):
+    def __init__(self, target, mode="vec", shift=0.0, delay=None, shared_counter=None, pointwise=False):
         self.t = target
         self.mode = mode
         self.shift = shift
@@ -30,6 +32,7 @@ class Likelihood:
         self.delay = delay
         self.shared = shared_counter
         self.keep_log = True
+        self.pointwise = pointwise   # vec mode evaluates row by row (bitwise the scalar function)
 
     # pickling support (dill pickles the sampler at checkpoint time)
     def __getstate__(self):
@@ -44,6 +47,7 @@ class Likelihood:
     def __setstate__(self, d):
         self.__dict__.update(d)
         self._lock = threading.Lock()
+        self.shared = SHARED
 
     def _ll(self, x):
         v = self.t.loglike(x)
@@ -52,7 +56,10 @@ class Likelihood:
     def __call__(self, x):
         x = np.asarray(x)
         if self.mode == "vec":
-            ll = np.asarray(self._ll(x), dtype=float)
+            if self.pointwise:
+                ll = np.array([float(self._ll(xi)) for xi in x], dtype=float)
+            else:
+                ll = np.asarray(self._ll(x), dtype=float)
             with self._lock:
                 self.n_calls += 1
                 self.n_points += len(x)
